@@ -55,12 +55,16 @@ CONSTANTS Node,          \* node ids
           MaxCfgReqs,    \* number of ChangeConfig requests (model bound)
           EdAddPromote, EdAddNonvoter, EdPromote, EdDemote, EdRemove, EdForceRemove,  \* node sets: the user edits a ChangeConfig request may combine
           G_ConfigCommittedFirst, G_OwnTermBeforeConfig, G_PromoteAfterRound, G_NonVoterNoElection, G_StepDownWhenDemoted,
+          G_XferCaughtUp, G_XferBlocksEntries, G_XferSuccessOnHigherTerm,
           FixD4,         \* TRUE = snapshot labelled with the configuration in force at the snapshot index (repaired)
           FixD11,        \* TRUE = a stale log view reports entries in removed segments as not found (repaired)
           FixD3,         \* TRUE = canChangeConfig requires an own-term commit (repaired)
           FixD13,        \* TRUE = a follower flushes its log before every successful append reply (repaired)
           FixD5,         \* TRUE = onSnapshotTaken keeps leader.removeLTE >= log.PrevIndex (repaired)
           FixD2,         \* TRUE = leader.changeConfig caches numVoters of the NEW configuration (repaired)
+          MaxXfers,      \* bound on leadership-transfer requests
+          MaxXferTries,  \* bound on timeout-now requests per node incarnation
+          XferTargets,   \* targets a transfer request may name (None = any)
           KeepHist,      \* record the sequence of events in `hist` (schedule export)
           FixD1          \* TRUE = onVoteRequest as repaired (requests from the known leader take the normal path)
 
@@ -85,7 +89,8 @@ CfgEntry(cfg) == [t |-> cfg.term, y |-> "cfg", v |-> 0, c |-> cfg.nodes]
 NoLu == [on |-> FALSE, vprev |-> 0, vlast |-> 0, commit |-> 0, cfg |-> FALSE, nil |-> FALSE]
 \* the snapshot goroutine (fsm.go onTakeSnapshot / doTakeSnapshot): idle -> start -> asked -> got|err -> stored
 NoSnapG == [pc |-> "idle", target |-> 0, cfg |-> EmptyCfg, idx |-> 0, term |-> 0, cmds |-> << >>, err |-> "", task |-> 0]
-NoXfer == [on |-> FALSE, term |-> 0, target |-> None, task |-> 0]
+\* transfer.go: on = timer.active, resp = respCh # nil (timeout-now request in flight), nt = newTermTimer.active
+NoXfer == [on |-> FALSE, term |-> 0, target |-> None, task |-> 0, resp |-> FALSE, nt |-> FALSE, seq |-> 0]
 NoLdr == [on |-> FALSE, start |-> 0, numVoters |-> 0, selfVoter |-> FALSE, removeLTE |-> 0,
           neQ |-> << >>, replQ |-> << >>, repl |-> << >>, xfer |-> NoXfer]
 
@@ -99,7 +104,7 @@ InitNode(n) ==
      cfgC |-> EmptyCfg, cfgL |-> IF member THEN InitCfg ELSE EmptyCfg,
      aborted |-> FALSE, votesNeeded |-> 0, selfVote |-> FALSE, cndTransfer |-> FALSE,
      fsmIdx |-> 0, fsmTerm |-> 0, fsmCmds |-> << >>, fsmQ |-> << >>,
-     ldr |-> NoLdr, outbox |-> {}, done |-> << >>, closed |-> FALSE, acts |-> {}, snapG |-> NoSnapG]
+     ldr |-> NoLdr, outbox |-> {}, done |-> << >>, closed |-> FALSE, acts |-> {}, snapG |-> NoSnapG, xseq |-> 0]
 
 --------------------------------------------------------------------------
 (* storage.go / value.go                                                   *)
@@ -266,7 +271,7 @@ RECURSIVE StoreEntryL(_, _), LeaderChangeConfig(_, _), CheckConfigActions(_, _, 
 StoreEntryL(s, e) ==
     \* storeEntry rejects everything while a transfer is in progress or once the leader is no voter any more
     \* (also the configuration entries its own checkConfigActions derives)
-    IF s.ldr.xfer.on \/ ~s.ldr.selfVoter
+    IF (G_XferBlocksEntries /\ s.ldr.xfer.on) \/ ~s.ldr.selfVoter
     THEN IF e.task # 0 THEN [s EXCEPT !.done = Append(@, [task |-> e.task, res |-> "inProgress", pos |-> 0])] ELSE s
     ELSE
     LET s1 == AppendEntry(s, [t |-> s.term, y |-> e.y, v |-> e.v, c |-> e.c])
@@ -375,9 +380,55 @@ LeaderInit(s) ==
 \* leader.release: pending entries fail with NotLeaderError{Lost: true}
 LeaderRelease(s) ==
     LET lost == [k \in 1..Len(s.ldr.neQ) |-> [task |-> s.ldr.neQ[k].task, res |-> IF s.closed THEN "serverClosed" ELSE "notLeaderLost", pos |-> 0]]
+        x == s.ldr.xfer
+        \* a transfer in progress is answered first: success iff the term moved on
+        xr == IF x.on THEN <<[task |-> x.task, pos |-> 0,
+                              res |-> IF s.term > x.term \/ ~G_XferSuccessOnHigherTerm THEN "ok" ELSE IF s.closed THEN "serverClosed" ELSE "quorumUnreachable"]>>
+              ELSE << >>
     IN [s EXCEPT !.leader = IF s.leader = s.id THEN None ELSE @,
-                 !.done = @ \o SelectSeq(lost, LAMBDA d : d.task # 0),
+                 !.done = @ \o xr \o SelectSeq(lost, LAMBDA d : d.task # 0),
                  !.ldr = NoLdr]
+
+\* ---- transfer.go ----
+TargetReady(s, j) == j \in DOMAIN s.ldr.repl /\ IsVoter(s.cfgL, j) /\ ~s.ldr.repl[j].noContact /\ (~G_XferCaughtUp \/ s.ldr.repl[j].match = Last(s))
+RECURSIVE FirstReady(_, _)
+FirstReady(s, k) == IF k > Len(ordc) THEN None
+                    ELSE IF ordc[k] # s.id /\ TargetReady(s, ordc[k]) THEN ordc[k] ELSE FirstReady(s, k + 1)
+\* leader.tryTransfer: choose a target that is reachable and holds the whole log; send timeout-now
+TryTransfer(s) ==
+    LET x   == s.ldr.xfer
+        tgt == IF x.target # None THEN (IF TargetReady(s, x.target) THEN x.target ELSE None) ELSE FirstReady(s, 1)
+    IN IF tgt = None \/ s.xseq >= MaxXferTries THEN s
+       ELSE [s EXCEPT !.xseq = @ + 1, !.ldr.xfer.resp = TRUE, !.ldr.xfer.seq = s.xseq + 1,
+                      !.outbox = @ \cup {[kind |-> "timeoutNow", from |-> s.id, to |-> tgt, term |-> s.term, transfer |-> FALSE,
+                                           lastIdx |-> 0, lastTerm |-> 0, phase |-> 0, result |-> "", respTerm |-> 0, xseq |-> s.xseq + 1]},
+                      !.acts = @ \cup {[kind |-> "xferTarget", n |-> s.id, target |-> tgt, voter |-> IsVoter(s.cfgL, tgt),
+                                        match |-> s.ldr.repl[tgt].match, last |-> Last(s)]}]
+\* leader.replyTransfer
+ReplyTransfer(s, res) ==
+    LET x == s.ldr.xfer
+        s1 == [s EXCEPT !.done = Append(@, [task |-> x.task, res |-> res, pos |-> 0]), !.ldr.xfer = NoXfer]
+    IN CheckConfigActions(s1, s1.cfgL.nodes, 0)
+\* leader.onTransfer
+OnTransfer(s, target, task) ==
+    LET reply(res) == [s EXCEPT !.done = Append(@, [task |-> task, res |-> res, pos |-> 0])]
+    IN IF s.ldr.xfer.on THEN reply("inProgress")
+       ELSE IF NumVoters(s.cfgL) = 1 THEN reply("noVoter")
+       ELSE IF target # None /\ target = s.id THEN reply("transferSelf")
+       ELSE IF target # None /\ target \in DOMAIN s.cfgL.nodes /\ ~IsVoter(s.cfgL, target) THEN reply("targetNonvoter")
+       ELSE IF target # None /\ target \notin DOMAIN s.cfgL.nodes THEN reply("invalidTarget")
+       ELSE TryTransfer([s EXCEPT !.ldr.xfer = [on |-> TRUE, term |-> s.term, target |-> target, task |-> task,
+                                                resp |-> FALSE, nt |-> FALSE, seq |-> 0]])
+\* leader.onTimeoutNowResult (result = "err": the RPC itself failed)
+OnTimeoutNowResult(s, from, result) ==
+    LET s0 == [s EXCEPT !.ldr.xfer.resp = FALSE] IN
+    IF result = "err"
+    THEN IF from \notin DOMAIN s0.ldr.repl THEN [s0 EXCEPT !.died = "raft"]
+         ELSE LET s1 == IF ~s0.ldr.repl[from].noContact THEN [s0 EXCEPT !.ldr.repl[from].noContact = TRUE] ELSE s0
+              IN IF s1.ldr.xfer.target = None THEN TryTransfer(s1) ELSE s1
+    ELSE IF result # "success"
+    THEN IF s0.ldr.xfer.target = None THEN ReplyTransfer(s0, "targetRejected") ELSE TryTransfer(s0)
+    ELSE [s0 EXCEPT !.ldr.xfer.nt = TRUE]
 
 \* leader.checkQuorum(0): step down when a majority of voters is not reachable
 CheckQuorum(s) ==
@@ -396,7 +447,8 @@ DrainReplQ(s, mU, nU, rU) ==
         LET s1 == IF mU THEN OnMajorityCommit(s) ELSE s
             s2 == IF nU THEN CheckQuorum(s1) ELSE s1
             s3 == IF rU /\ s2.ldr.on /\ s2.ldr.removeLTE > s2.logPrev THEN CheckLogCompact(s2) ELSE s2
-        IN s3
+            x  == s3.ldr.xfer
+        IN IF (mU \/ nU) /\ s3.died = "" /\ s3.ldr.on /\ x.on /\ ~x.resp /\ ~x.nt THEN TryTransfer(s3) ELSE s3
     ELSE LET u == Head(s.ldr.replQ)
              s0 == [s EXCEPT !.ldr.replQ = Tail(@)]
          IN IF u.j \notin DOMAIN s0.ldr.repl THEN DrainReplQ(s0, mU, nU, rU)
@@ -643,7 +695,7 @@ Crashed(s) ==
 \* (a node whose handler, FSM or replication goroutine hit an assertion / nil dereference is a dead process)
 SettleNode(s0) == LET s1 == IF EagerFsm THEN FsmDrain(s0) ELSE s0
                       s  == IF s1.died # "" /\ s1.up THEN [Crashed(s1) EXCEPT !.died = s1.died] ELSE s1
-                  IN [s EXCEPT !.outbox = {}, !.done = << >>, !.acts = {}]
+                  IN [s EXCEPT !.outbox = {}, !.acts = {}]
 \* requests written on connections whose replication no longer exists (leader stepped down, follower removed).
 \* orph is a SEQUENCE (a bag would do): two abandoned connections may carry identical requests.
 RECURSIVE SetToSeq(_)
@@ -656,6 +708,11 @@ Abandoned(before, after, T) ==
                                           /\ after[i].up /\ (~after[i].ldr.on \/ j \notin DOMAIN after[i].ldr.repl)}
     IN Concat([p \in pairs |-> ReqsOf(before[p[1]], p[1], p[2])], SetToSeq(pairs))
 
+\* completed tasks as a set of [n, op, res, k]: k-th completion with that (op, result) on node n in this step
+OpOf(task) == IF task < 1000 THEN "update" ELSE IF task < 2000 THEN "changeConfig" ELSE IF task < 3000 THEN "takeSnapshot" ELSE "transfer"
+DoneOfNode(s) == {[n |-> s.id, op |-> OpOf(s.done[k].task), res |-> s.done[k].res,
+                   k |-> Cardinality({i \in 1..k : OpOf(s.done[i].task) = OpOf(s.done[k].task) /\ s.done[i].res = s.done[k].res})]
+                  : k \in 1..Len(s.done)}
 \* every action ends here. T = the nodes this step touched (all others are exactly as the previous step left them)
 Commit(ns0, newRpcs, newOrph, e) ==
     \E nsx \in {ns0} :   \* (forces the handler result to be evaluated exactly once)
@@ -670,9 +727,12 @@ Commit(ns0, newRpcs, newOrph, e) ==
                                                 ELSE nsx[m].ldr.repl[j]]]
                                       ELSE nsx[m]]
         T2   == {n \in Node : ns[n] # node[n]}
-        ns1  == [n \in Node |-> IF n \in T2 THEN SettleNode(ns[n]) ELSE ns[n]]
+        nsS  == [n \in Node |-> IF n \in T2 THEN SettleNode(ns[n]) ELSE ns[n]]
+        \* tasks completed in this step (what their submitters see), then the lists are cleared
+        dn   == UNION {DoneOfNode(nsS[n]) : n \in T2}
+        ns1  == [n \in Node |-> IF nsS[n].done # << >> THEN [nsS[n] EXCEPT !.done = << >>] ELSE nsS[n]]
         acts == UNION {ns[n].acts : n \in T2}
-        e1   == e @@ [rf |-> rfc, acts |-> acts]
+        e1   == e @@ [rf |-> rfc, acts |-> acts, done |-> dn]
         rp   == newRpcs \cup UNION {ns[n].outbox : n \in T2}
         op   == IF Orphans THEN newOrph \o Abandoned(node, ns1, T2) ELSE newOrph
     IN
@@ -683,6 +743,7 @@ Commit(ns0, newRpcs, newOrph, e) ==
     /\ ev' = e1
     /\ hist' = IF KeepHist THEN Append(hist, e @@ [rf |-> rfc]) ELSE hist
     /\ LET pend == ctr.cfgReqs < MaxCfgReqs \/ (\E n \in Node : HasActions(ns1[n].cfgL.nodes))
+                   \/ (\E n \in Node : ns1[n].up /\ ns1[n].ldr.on /\ (ns1[n].ldr.xfer.on \/ ctr.xfers < MaxXfers))
        IN /\ ordc' \in (IF pend THEN AllOrds ELSE {<< >>})
           /\ rfc' \in (IF pend THEN RoundFastSet ELSE {TRUE})
 
@@ -722,7 +783,11 @@ RpcReq(m) ==
        THEN \* the dialer sees an error; its (ignored) result goes through respCh, behind the self vote
             LET c == node[m.from]
                 cur == Up(m.from) /\ m.kind = "vote" /\ c.state = "C" /\ c.term = m.term
-            IN Commit(IF cur THEN [node EXCEPT ![m.from] = ConsumeSelfFirst(c)] ELSE node, rpcs \ {m}, orph,
+                \* timeout-now: the error reaches the transferring leader through transfer.respCh (if still that attempt)
+                xcur == Up(m.from) /\ m.kind = "timeoutNow" /\ c.state = "L" /\ c.cur = "L" /\ c.ldr.xfer.resp /\ c.ldr.xfer.seq = m.xseq
+            IN Commit(IF cur THEN [node EXCEPT ![m.from] = ConsumeSelfFirst(c)]
+                      ELSE IF xcur THEN [node EXCEPT ![m.from] = Post(MaybeLdrUpdates(OnTimeoutNowResult(c, m.to, "err")))]
+                      ELSE node, rpcs \ {m}, orph,
                       [kind |-> m.kind \o "Req", n |-> n, from |-> m.from, term |-> m.term, lost |-> TRUE])
        ELSE LET s0 == Identity(node[n], m.from)
                 pre == s0.leader
@@ -746,10 +811,13 @@ RpcResp(m) ==
            current == Up(n) /\ m.kind = "vote" /\ s.state = "C" /\ s.term = m.term
            s0 == IF current THEN ConsumeSelfFirst(s) ELSE s
            still == current /\ s0.state = "C" /\ s0.term = m.term
-       IN Commit([node EXCEPT ![n] = IF still THEN Post(OnVoteResult(s0, m.result, m.respTerm)) ELSE s0],
+           xcur == Up(n) /\ m.kind = "timeoutNow" /\ s.state = "L" /\ s.cur = "L" /\ s.ldr.xfer.resp /\ s.ldr.xfer.seq = m.xseq
+       IN Commit([node EXCEPT ![n] = IF still THEN Post(OnVoteResult(s0, m.result, m.respTerm))
+                                     ELSE IF xcur THEN Post(MaybeLdrUpdates(OnTimeoutNowResult(s, m.to, m.result)))
+                                     ELSE s0],
                  rpcs \ {m}, orph,
                  [kind |-> m.kind \o "Resp", n |-> n, from |-> m.to, term |-> m.term, result |-> m.result,
-                  respTerm |-> m.respTerm, current |-> current])
+                  respTerm |-> m.respTerm, current |-> (current \/ xcur)])
     /\ UNCHANGED ctr
 
 SelfVote(n) ==
@@ -955,6 +1023,25 @@ ChangeConfigOp(n, nodes) ==
     /\ ctr' = [ctr EXCEPT !.cfgReqs = @ + 1]
 ChangeConfigReq(n) == \E nodes \in CfgRequests(node[n]) : ChangeConfigOp(n, nodes)
 
+\* ---- leadership transfer (task, timers) ----
+TransferOp(n, target) ==
+    /\ Up(n) /\ node[n].state = "L" /\ node[n].cur = "L" /\ ctr.xfers < MaxXfers
+    /\ LET task == 3000 + ctr.xfers + 1
+       IN Commit([node EXCEPT ![n] = Post(MaybeLdrUpdates(OnTransfer(node[n], target, task)))], rpcs, orph,
+                 [kind |-> "transfer", n |-> n, task |-> task, target |-> target])
+    /\ ctr' = [ctr EXCEPT !.xfers = @ + 1]
+\* stateLoop `case <-l.transfer.timer.C`
+XferTimeout(n) ==
+    /\ Up(n) /\ node[n].state = "L" /\ node[n].cur = "L" /\ node[n].ldr.xfer.on
+    /\ Commit([node EXCEPT ![n] = Post(MaybeLdrUpdates(ReplyTransfer(node[n], "timeout")))], rpcs, orph, [kind |-> "xferTimeout", n |-> n])
+    /\ UNCHANGED ctr
+\* stateLoop `case <-l.transfer.newTermTimer.C`: the target did not start its election in time, try again
+NewTermTimeout(n) ==
+    /\ Up(n) /\ node[n].state = "L" /\ node[n].cur = "L" /\ node[n].ldr.xfer.on /\ node[n].ldr.xfer.nt
+    /\ Commit([node EXCEPT ![n] = Post(MaybeLdrUpdates(TryTransfer([node[n] EXCEPT !.ldr.xfer.nt = FALSE])))], rpcs, orph,
+              [kind |-> "newTermTimeout", n |-> n])
+    /\ UNCHANGED ctr
+
 Fsm(n) ==
     /\ ~EagerFsm /\ Up(n) /\ node[n].fsmQ # << >>
     /\ Commit([node EXCEPT ![n] = FsmItem(node[n])], rpcs, orph, [kind |-> "fsm", n |-> n])
@@ -1064,7 +1151,7 @@ Restart(n) ==
     /\ UNCHANGED ctr
 
 --------------------------------------------------------------------------
-InitVal == [node |-> [n \in Node |-> InitNode(n)], ctr |-> [cmds |-> 0, crashes |-> 0, elections |-> 0, cfgReqs |-> 0, snaps |-> 0]]
+InitVal == [node |-> [n \in Node |-> InitNode(n)], ctr |-> [cmds |-> 0, crashes |-> 0, elections |-> 0, cfgReqs |-> 0, snaps |-> 0, xfers |-> 0]]
 Init ==
     /\ node = InitVal.node
     /\ rpcs = {} /\ orph = << >>
@@ -1072,7 +1159,7 @@ Init ==
     /\ ctr = InitVal.ctr
     /\ ev = [kind |-> "init"]
     /\ hist = << >>
-    /\ ordc \in (IF MaxCfgReqs > 0 THEN AllOrds ELSE {<< >>}) /\ rfc \in (IF MaxCfgReqs > 0 THEN RoundFastSet ELSE {TRUE})
+    /\ ordc \in (IF MaxCfgReqs > 0 \/ MaxXfers > 0 THEN AllOrds ELSE {<< >>}) /\ rfc \in (IF MaxCfgReqs > 0 THEN RoundFastSet ELSE {TRUE})
 \* back to the initial state (trace validation: a new recorded run starts)
 Reset ==
     /\ node' = InitVal.node
@@ -1081,11 +1168,13 @@ Reset ==
     /\ ctr' = InitVal.ctr
     /\ ev' = [kind |-> "init"]
     /\ hist' = << >>
-    /\ ordc' \in (IF MaxCfgReqs > 0 THEN AllOrds ELSE {<< >>}) /\ rfc' \in (IF MaxCfgReqs > 0 THEN RoundFastSet ELSE {TRUE})
+    /\ ordc' \in (IF MaxCfgReqs > 0 \/ MaxXfers > 0 THEN AllOrds ELSE {<< >>}) /\ rfc' \in (IF MaxCfgReqs > 0 THEN RoundFastSet ELSE {TRUE})
 
 Next ==
     \/ \E n \in Node : ChangeConfigReq(n) \/ SnapGAsk(n) \/ SnapGStore(n) \/ SnapshotTaken(n)
     \/ \E n \in Node, thr \in {0} : TakeSnapshotOp(n, thr)
+    \/ \E n \in Node, t \in XferTargets : TransferOp(n, t)
+    \/ \E n \in Node : XferTimeout(n) \/ NewTermTimeout(n)
     \/ \E n \in Node : Timeout(n) \/ SelfVote(n) \/ Client(n) \/ Fsm(n) \/ Crash(n) \/ Restart(n) \/ LdrUpdates(n)
     \/ \E m \in rpcs : RpcReq(m) \/ RpcResp(m)
     \/ \E n, p \in Node : Disconnected(n, p)
@@ -1109,6 +1198,7 @@ Inv_C11 == C11_OnlyVotersCampaign(gh) /\ C11_OnlyVotersLead(gh) /\ C11_PromoteAf
 Inv_C09 == C09_SnapshotCommitted(gh, node) /\ C09_NoViewInvalidation(node) /\ C03_FsmIsCommittedPrefix(gh, node)
 Inv_C12 == C12_LabelOK(gh, node)
 Inv_C17a == C17_LeaderStickiness(gh)
+Inv_C16 == C16_SuccessMeansSteppedDown(gh) /\ C16_TargetEligible(gh) /\ C16_NoNewEntriesDuringTransfer(gh) /\ C01_ElectionSafety(gh)
 Inv_C19 == C19_Ordered(node) /\ C19_LatestIsNewest(node) /\ C19_Monotone(gh)
 
 Symm == Permutations(Node)
